@@ -1,4 +1,4 @@
-* Reference copies; tools/props/c11.py writes the configs it runs (tiers, geometries, open deviations) into .work/C11/.
+\* Reference copies; tools/props/c11.py writes the configs it runs (tiers, geometries, open deviations) into .work/C11/.
 \* gen: java ... tlc2.TLC -simulate num=N -depth 81 -config MC_Channel_gen.cfg Channel.tla ; trace: TRACE=<file> ... -config Trace_Channel.cfg Trace_Channel.tla
 SPECIFICATION GenSpec
 CONSTANTS
